@@ -776,6 +776,9 @@ func (g *GcsEmu) finishCompose(baseUrl HttpBaseUrl, bucket string, dst composeOb
 	if len(srcs) > gcsMaxComposeSources {
 		return nil, fmtErrorfCode(http.StatusBadRequest, "too many sources")
 	}
+	if meta == nil {
+		return nil, fmtErrorfCode(http.StatusBadRequest, "missing destination")
+	}
 
 	// TODO: consider moving this to disk to handle very large compose operations
 	var data []byte
